@@ -210,6 +210,8 @@ struct Gen {
     reg2_frames: u64,
     live_ticks: u64,
     link_samples: Vec<u64>,
+    /// send-fault history (case kind CF): sends on a down uplink whose re-open is refused fail too
+    send_faults: bool,
 }
 
 fn ka10(ts: u64) -> Vec<u8> {
@@ -282,9 +284,21 @@ impl Gen {
             self.sim.fail[i].store(bad, Ordering::SeqCst);
             rcs.push(boolc(!bad).to_string());
             if c.connected && !c.is_timed_out(now) { self.live_ticks += 1; }
+            // an uplink that is down, whose socket re-open is refused this pass AND whose sends on the socket it
+            // still has fail (REG1 / REG2 re-send): the pass must go on to the uplinks listed after it.  Only on
+            // links that emit no keepalive this pass (timed out), so the frames the model predicts are unaffected.
+            if self.send_faults && bad && c.is_timed_out(now) && r.chance(2, 3) {
+                use std::os::fd::AsRawFd;
+                if let Some(io) = self.sim.conn_io.get(&c.conn_id) {
+                    let err = srtla_send::net::batch_recv::verif_send_script::Scripted::Fail(std::io::ErrorKind::ConnectionRefused);
+                    srtla_send::net::batch_recv::verif_send_script::script_send(io.socket.as_raw_fd(), &[err, err, err]);
+                    run.count("tick:down_link_send_errors_scripted");
+                }
+            }
             pres.push(pobs(c));
         }
         self.sim.tick(now, classic).await;
+        let _ = srtla_send::net::batch_recv::verif_send_script::clear();
         // telemetry is an input of the tick only: put unreachable extremes back so that the
         // ACK paths (window + 1, C06's subject) are not driven from impossible states
         for c in self.sim.conns.iter_mut() {
@@ -362,6 +376,7 @@ fn pick_ids(n: usize, r: &mut Rng) -> Vec<u64> {
 /// 5 RTT drop (a link's round trip collapses after one or two samples: Kalman overshoot)
 async fn gen_case(r: &mut Rng, run: &mut Run, style: u64, nticks: usize) -> std::io::Result<()> {
     let n = *r.pick(&[1usize, 1, 1, 2, 2, 2, 2, 3, 3, 4]);
+    let n = if style == 6 { n.max(2) } else { n };
     let ids = pick_ids(n, r);
     let t0: u64 = match style {
         4 => *r.pick(&[0u64, 1, 1000, 4000]),
@@ -370,7 +385,7 @@ async fn gen_case(r: &mut Rng, run: &mut Run, style: u64, nticks: usize) -> std:
     };
     let sim = Sim::new(&ids, t0).await?;
     let mut g = Gen { sim, now: t0, ops: vec![], obs: vec![], planned: vec![], recent: vec![],
-        samples: 0, rejected: 0, ka_frames: 0, reg2_frames: 0, live_ticks: 0, link_samples: vec![0; n] };
+        samples: 0, rejected: 0, ka_frames: 0, reg2_frames: 0, live_ticks: 0, link_samples: vec![0; n], send_faults: style == 6 };
     let classic = r.chance(1, 3);
     let mut echo_p = vec![];
     let mut rereg_p = vec![];
@@ -381,6 +396,10 @@ async fn gen_case(r: &mut Rng, run: &mut Run, style: u64, nticks: usize) -> std:
         rtt_ms.push(*r.pick(&[1u64, 5, 20, 45, 80, 150, 400, 950, 1000, 2500, 9990, 10050]));
     }
     if style == 0 { for x in rtt_ms.iter_mut() { *x = (*x).min(400); } }
+    // send-fault histories: the first uplink is mute (times out, is retried, cannot re-register), the uplinks
+    // listed after it are healthy and must keep their keepalive cadence on every pass
+    let mute = if style == 6 { 1 + r.below((n - 1) as u64) as usize } else { 0 };
+    if style == 6 { for i in 0..n { if i < mute { echo_p[i] = 0; rereg_p[i] = 0; } else { echo_p[i] = 100; rtt_ms[i] = rtt_ms[i].min(400); } } }
     let mut drop_after = vec![];
     let mut drop_to = vec![];
     for i in 0..n {
@@ -396,12 +415,14 @@ async fn gen_case(r: &mut Rng, run: &mut Run, style: u64, nticks: usize) -> std:
     // initial registration: REG3 from the receiver on most links
     for i in 0..n {
         if style == 3 && r.chance(1, 3) { continue; }
+        if style == 6 && i < mute && r.chance(1, 2) { continue; }
+        if style == 6 && i >= mute { let at = g.now + r.below(30); g.pkt(i, &[0x92, 0x02], at, run).await; continue; }
         if r.chance(9, 10) { let at = g.now + r.below(30); g.pkt(i, &[0x92, 0x02], at, run).await; }
     }
     let mut last_tick = g.now;
     for _ in 0..nticks {
         let delta = match style {
-            0 | 5 => 1000,
+            0 | 5 | 6 => 1000,
             3 => if r.chance(1, 2) { 1000 } else { *r.pick(&TICK_OFF) },
             _ => if r.chance(3, 4) { *r.pick(&TICK_ON) } else { *r.pick(&TICK_OFF) },
         };
@@ -439,9 +460,9 @@ async fn gen_case(r: &mut Rng, run: &mut Run, style: u64, nticks: usize) -> std:
     run.count_n("frames:keepalive", g.ka_frames);
     run.count_n("frames:reg2_after_reconnect", g.reg2_frames);
     run.count_n("ticks:link_live", g.live_ticks);
-    let text = format!("CA {} {} [{}] [{}]", crate::common::zlist(ids.iter().map(|&x| x as i128)), t0,
+    let text = format!("{} {} {} [{}] [{}]", if g.send_faults { "CF" } else { "CA" }, crate::common::zlist(ids.iter().map(|&x| x as i128)), t0,
         g.ops.join(";"), g.obs.join(";"));
-    let kind: &'static str = match style { 0 => "steady", 1 => "mixed", 2 => "hostile", 3 => "silent", 4 => "tinyclock", _ => "rttdrop" };
+    let kind: &'static str = match style { 0 => "steady", 1 => "mixed", 2 => "hostile", 3 => "silent", 4 => "tinyclock", 6 => "sendfaults", _ => "rttdrop" };
     run.push(kind, g.samples > 0 && g.ka_frames > 0, text);
     // stop the reader tasks housekeeping spawned on reconnects (they own the sockets)
     for (_, h) in g.sim.readers.drain() { h.handle.abort(); }
@@ -458,7 +479,7 @@ async fn fixed_case(run: &mut Run) -> std::io::Result<()> {
     let mut r = Rng::new(14);
     let sim = Sim::new(&ids, t0).await?;
     let mut g = Gen { sim, now: t0, ops: vec![], obs: vec![], planned: vec![], recent: vec![],
-        samples: 0, rejected: 0, ka_frames: 0, reg2_frames: 0, live_ticks: 0, link_samples: vec![0; 2] };
+        samples: 0, rejected: 0, ka_frames: 0, reg2_frames: 0, live_ticks: 0, link_samples: vec![0; 2], send_faults: false };
     let (none, all, rtt) = ([0u64, 0], [100u64, 100], [1u64, 1]);
     g.pkt(0, &[0x92, 0x02], t0 + 10, run).await;
     g.pkt(1, &[0x92, 0x02], t0 + 10, run).await;
@@ -508,6 +529,12 @@ pub fn run(seed: u64, tier: &str, out: &Path, extra: &[(String, String)]) -> std
             let style = match r.below(20) { 0..=2 => 0, 3..=7 => 1, 8..=12 => 2, 13..=15 => 3, 16..=17 => 4, _ => 5 };
             let nticks = if style == 5 { 20 + r.below(10) as usize } else { nt(&mut r) };
             gen_case(&mut r, &mut run, style, nticks).await?;
+        }
+        // send-fault histories (case kind CF, judged by the monitor only): additional cases, own PRNG forks
+        for i in 0..(ncases / 5).max(4) {
+            let mut r = rng.fork(1_000_000 + i as u64);
+            let nticks = 8 + r.below(10) as usize;
+            gen_case(&mut r, &mut run, 6, nticks).await?;
         }
         Ok(())
     });
